@@ -500,11 +500,16 @@ def r8_worker_contract(a, tier):
     def result_cls(stop, payload, exception=None):
         return Obj(stop=stop, payload=payload, exception=exception, outcome=None, runtime=None, linecount=None, memory=None)
 
+    import builtins as _b
+
+    def exc_class(e):
+        return getattr(_b, e.cls_name, Exception) if isinstance(e, Raised) else type(e)
+
     def isinst(e, r):
         if isinstance(e, Raised):
-            names = {'ValueError': ('ValueError', 'Exception'), 'KeyError': ('KeyError', 'LookupError', 'Exception')}.get(e.cls_name, (e.cls_name,))
-            return getattr(r, '__name__', str(r)) in names
-        return isinstance(e, r) if isinstance(r, type) else False
+            rs = r if isinstance(r, tuple) else (r,)
+            return any(isinstance(x, type) and issubclass(exc_class(e), x) for x in rs)
+        return isinstance(e, r) if isinstance(r, (type, tuple)) else False
 
     def run(stopped=False, raises_=(), reraise=False, fails=None):
         def func(payload, *x, **k):
@@ -515,7 +520,8 @@ def r8_worker_contract(a, tier):
         stop = Obj()
         task = Hook(None, stop=Hook(None, is_set=Hook(lambda: stopped), set=Hook(lambda: None)), func=Hook(func), payload=Hook(None, raises=Hook(lambda: raises_), path='p'),
                    pickable=Hook(lambda o: ('PICKLED', o)), reraise=reraise, args=(), kwargs={})
-        it = ModelInterp(a, {'Result': Hook(result_cls), 'isinstance': Hook(isinst), 'memory_use': Hook(lambda: 0), 'getattr': Hook(lambda o, n, *d: d[0] if d else None),
+        it = ModelInterp(a, {'Result': Hook(result_cls), 'isinstance': Hook(isinst), 'memory_use': Hook(lambda: 0), 'getattr': Hook(lambda o, n, *d: d[0] if d else None), 'type': Hook(lambda o: exc_class(o)),
+                             'issubclass': Hook(lambda c, b_: isinstance(c, type) and issubclass(c, b_)),
                              'sys': Hook(None, getrecursionlimit=Hook(lambda: 1000), setrecursionlimit=Hook(lambda n: None)),
                              'time': Hook(None, thread_time=Hook(lambda: 0.0)), 'InterruptedError': InterruptedError})
         try:
@@ -532,6 +538,7 @@ def r8_worker_contract(a, tier):
         ('ValueError, reraise set', dict(fails='ValueError', reraise=True), lambda r, x: x == 'ValueError'),
         ('ValueError, raises() names ValueError', dict(fails='ValueError', raises_=(ValueError,)), lambda r, x: x is None and r is not None and r.exception is not None),
         ('KeyError, raises() names ValueError', dict(fails='KeyError', raises_=(ValueError,)), lambda r, x: x == 'KeyError'),
+        ('KeyError, raises() names its base class LookupError', dict(fails='KeyError', raises_=(LookupError,)), lambda r, x: x is None and r is not None and r.exception is not None),
         ('the run is stopped', dict(stopped=True), lambda r, x: x is None and r is not None and r.exception is not None),
     ]
     for what, kw, good in cases:
